@@ -14,10 +14,11 @@ Require Import Model Spec Refine IgnoreFacts.
 Theorem C04_exec_refines_peg :
   forall (g funs : list (list nat * expr)) (ignored : option nat)
          (t : list nat) (rx : nat -> nat -> option nat),
-    (forall r b, nth_error g r = Some ([], b) -> wf g ignored t rx [] b) ->
+    (forall r ps b, nth_error g r = Some (ps, b) -> wf g funs ignored t rx ps b) ->
+    (forall fid ps b, nth_error funs fid = Some (ps, b) -> wf g funs ignored t rx ps b) ->
     (forall r, ignored = Some r -> exists es, nth_error g r = Some ([], Skip es)) ->
-    forall n e sc E s, wf g ignored t rx sc e -> scope_of sc E -> sub E (locals s) ->
-      match peg g ignored t rx n E e (pos s), exec true g funs ignored t rx n e s with
+    forall n e sc E s, wf g funs ignored t rx sc e -> scope_of sc E -> sub E (locals s) ->
+      match peg g funs ignored t rx n E e (pos s), exec true g funs ignored t rx n e s with
       | Fuel, OutOfFuel => True
       | Raise, _ => True
       | Match v p', Done s' => status s' = true /\ result s' = v /\ pos s' = p' /\ sub E (locals s')
@@ -32,24 +33,24 @@ Print Assumptions C04_exec_refines_peg.
    text is consumed immediately AFTER a successfully matched literal, its value
    never shows in the result, and a literal that fails consumes nothing *)
 Theorem C04_flagged_string_literal :
-  forall g t rx r b, nth_error g r = Some ([], b) ->
-  forall n E s p, s <> [] -> (forall q, peg g (Some r) t rx n [] b q <> Fails) ->
-    peg g (Some r) t rx (S n) E (Str s true) p
-    = peg g (Some r) t rx (S (S n)) E (Discard (Str s false) (Ref r) false) p.
+  forall g funs t rx r b, nth_error g r = Some ([], b) ->
+  forall n E s p, s <> [] -> (forall q, peg g funs (Some r) t rx n [] b q <> Fails) ->
+    peg g funs (Some r) t rx (S n) E (Str s true) p
+    = peg g funs (Some r) t rx (S (S n)) E (Discard (Str s false) (Ref r) false) p.
 Proof. exact flagged_literal_is_discard. Qed.
 Print Assumptions C04_flagged_string_literal.
 
 Theorem C04_flagged_regex_literal :
-  forall g t rx r b, nth_error g r = Some ([], b) ->
-  forall n E id p, (forall q, peg g (Some r) t rx n [] b q <> Fails) ->
-    peg g (Some r) t rx (S n) E (Rx id true) p
-    = peg g (Some r) t rx (S (S n)) E (Discard (Rx id false) (Ref r) false) p.
+  forall g funs t rx r b, nth_error g r = Some ([], b) ->
+  forall n E id p, (forall q, peg g funs (Some r) t rx n [] b q <> Fails) ->
+    peg g funs (Some r) t rx (S n) E (Rx id true) p
+    = peg g funs (Some r) t rx (S (S n)) E (Discard (Rx id false) (Ref r) false) p.
 Proof. exact flagged_regex_is_discard. Qed.
 Print Assumptions C04_flagged_regex_literal.
 
 (* ... and at no other point: an unflagged literal does not consult the ignore rule *)
 Theorem C04_unflagged_literal :
-  forall g t rx n E s p ig,
-    peg g ig t rx (S n) E (Str s false) p = peg g None t rx (S n) E (Str s false) p.
+  forall g funs t rx n E s p ig,
+    peg g funs ig t rx (S n) E (Str s false) p = peg g funs None t rx (S n) E (Str s false) p.
 Proof. exact unflagged_literal_ignores. Qed.
 Print Assumptions C04_unflagged_literal.
